@@ -111,6 +111,10 @@ def check(prog, run):
     reach_ = sorted(q_ for q_ in prog.reachable([prog.func(x_).qual for x_ in ("functions.ssi.build_hank", "functions.ssi.SSI_fast", "functions.ssi.SSI_poles")])
                     if q_ in prog.functions and not q_.startswith("pyoma2.functions.plot"))
     shared_state_rule(prog, run, "R-stateless", reach_, "the variances returned depend on the calls made before (the cached matrix was changed by an earlier call)")
+    run.rule("R-one-object", "no in-place operation on an array (or on a basic-slice view of it) that is read again under its other name afterwards: the singular "
+             "vectors used by the propagation are the ones the decomposition returned", 0)
+    from ..effects import alias_inplace_rule
+    alias_inplace_rule(prog.raw, run, "R-one-object", [q_ for q_ in reach_ if q_ in prog.raw.functions])
     from . import C01
     C01.eigvec_rule(prog, run)          # the sensitivities use (left, right) eigenvectors by position
     run.rule("R-vec-order", "vectorisation order of the factor columns (producer) = order expected by the Kronecker forms of the propagation (consumer)", 3)
